@@ -75,9 +75,13 @@ class StepChecker:
             # the affinity of this batch is rounding noise (cosine distances of collinear points): nothing to differentiate
             self.stats["illconditioned_skipped"] += 1
             return
-        if self.base == "mmd" and R.mmd_condition(P0, Ab, self.ovo, self.gemini.epsilon) > 1e-3:
+        cond = R.mmd_condition(P0, Ab, self.ovo, self.gemini.epsilon) if self.base == "mmd" else 0.0
+        if cond > 1e-3:
             self.stats["illconditioned_skipped"] += 1
             return
+        # the library forms squared MMDs as a+c-2b in float64: their relative rounding noise `cond` is inherited by the
+        # gradient (which divides by the distance); the comparison allows for it
+        self._floor_rel = 1e-7 + 8 * cond
         self.stats["steps_checked"] += 1
         f0 = self._objective(Xb, Ab, idx)
         S = max(R.natural_scale(self.base, Ab), abs(f0))
@@ -114,7 +118,7 @@ class StepChecker:
                         finally:
                             p[...] = saved
 
-                    status, info = compare(F, f0, an, S, retry_h=1e-6)  # ReLU patterns, TV signs, transport bases may change within 1e-4
+                    status, info = compare(F, f0, an, S, floor_rel=self._floor_rel, retry_h=1e-6)  # ReLU patterns, TV signs, transport bases may change within 1e-4
                     if status == "kink":
                         self.stats["kink_skipped"] += 1
                         continue
